@@ -26,6 +26,10 @@ class BadOp(Exception):
     pass
 
 
+class NoMap(Exception):
+    pass
+
+
 def rec_dtype(fields):
     return np.dtype([('f%d' % i, DTYPES[f]) for i, f in enumerate(fields)])
 
@@ -43,7 +47,7 @@ class Real(PackedOps):
     # ---- helpers -------------------------------------------------------
     def m(self, name):
         if name not in self.pool:
-            raise BadOp('no such map ' + name)
+            raise NoMap(name)
         return self.pool[name]
 
     def decode_sentinel(self, s, dtype):
@@ -108,6 +112,8 @@ class Real(PackedOps):
             res = fn(pos, kv)
         except BadOp:
             raise
+        except NoMap:
+            return 'nomap', line
         except enc.Inexact:
             return 'inexact', line
         except Exception as e:  # the library raised
@@ -163,6 +169,19 @@ class Real(PackedOps):
         else:
             values = self.array_for(m, split_list(kv['vals']))
         m.update_values_pix(pix, values, operation=kv.get('op', 'replace'))
+        return 'ok'
+
+    def op_updr(self, pos, kv):
+        m = self.m(pos[0])
+        rr = [t.split(':') for t in split_list(kv.get('ranges', '_'))]
+        ranges = np.array([[int(a), int(b)] for a, b in rr], dtype=np.int64).reshape((len(rr), 2))
+        values = None if kv.get('none') == '1' else self.scalar_for(m, kv['val'])
+        old = hsm.PIXEL_RANGE_THRESHOLD
+        hsm.PIXEL_RANGE_THRESHOLD = -1 if kv.get('path', 'slice') == 'slice' else 10 ** 15
+        try:
+            m.update_values_pix(ranges, values, operation=kv.get('op', 'replace'))
+        finally:
+            hsm.PIXEL_RANGE_THRESHOLD = old
         return 'ok'
 
     def op_vals(self, pos, kv):
